@@ -836,7 +836,11 @@ async fn one_config(a: Args, idx: usize, proto: Proto, transport: Transport) -> 
     let mut rep = Report::new();
     let mut rng = Rng::derive(a.seed, 0xC07E, idx as u64);
     let users = match proto {
-        Proto::Ss(m) if m.supports_eih() => *rng.pick(&[0usize, 2]),
+        Proto::Ss(m) if m.supports_eih() => {
+            let r = *rng.pick(&[0usize, 2]);
+            // datagram listeners always with a user table (16..31-byte datagrams take another path there)
+            if transport != Transport::Quic { 2 } else { r }
+        }
         Proto::Vmess(_) => 2,
         _ => 0,
     };
